@@ -164,6 +164,12 @@ def families(tier, rng):
             for cons in ["", "w", "w,", ",", ":,,", "…,", "1\"", "W", ":w,,", "$", "w…_"]:
                 for fl in ("", "W") if tier == "quick" else ("", "W", "o", "O"):
                     out.append((src + body + cons, fl, inp[0]))
+    #    ... the same one level down: an outer lazily evaluated body that measures / sums an inner lazily produced list
+    #    whose body fails for one item, the outer list walked by a loop, joined, summed or taken apart
+    for prod in ["⟨⟨1⟩|⟨λ1;⟩|⟨2⟩⟩λvNL;M", "⟨⟨1⟩|⟨λ1;⟩|⟨2⟩⟩ƛvN∑;", "⟨⟨1|2⟩|⟨3|λ1;⟩⟩ƛvNw;", "⟨⟨1⟩|⟨λ1;⟩⟩'vNL;"]:
+        for cons in ["(n,)", "(n)", "\\ j,", "∑,", "", "L,", "h,", "ƛ›;,", "÷"]:
+            for fl in ("", "j", "W", "s"):
+                out.append((prod + cons, fl, inp[0]))
     #    ... and bodies that raise StopIteration for some item (moulding onto an empty list): inside a generator that is an
     #    error; handed to filter() / map() it reads as the end of the list and the run completes with the interrupted
     #    lambda's entries left behind (genuine defect in vy_filter, repaired: fix 56ead27)
